@@ -33,6 +33,9 @@ type PackageSpec struct {
 	AutoInstr bool        `json:"autoinstr,omitempty"`
 	Twin      bool        `json:"twin,omitempty"`   // also write package pm (same sources) for the modifier-mode differential
 	SrcMap    bool        `json:"srcmap,omitempty"` // E-BIN: package p is processed with -genmode=source-map (same behaviour is what C20 promises)
+	// StaleOut (E-GEN, C16): an older and much longer generation already sits
+	// at every second output path when cff runs.
+	StaleOut bool `json:"staleout,omitempty"`
 }
 
 // Specs returns all directives of the package.
